@@ -179,8 +179,8 @@ pub fn ref_shift(e: &E, cutoff: usize, amount: i64) -> Option<Option<E>> {
         if j < cutoff {
             Some(N::Free(j, name.to_owned()))
         } else {
-            let nj = j as i64 + amount;
-            if nj < cutoff as i64 { None } else { Some(N::Free(nj as usize, name.to_owned())) }
+            let nj = j as i128 + amount as i128;
+            if nj < cutoff as i128 || nj > usize::MAX as i128 { None } else { Some(N::Free(nj as usize, name.to_owned())) }
         }
     });
     Some(moved.map(|m| from_named(&m, &mut vec![])))
